@@ -317,8 +317,9 @@ evrpc_request_cb(struct evhttp_request *req, void *arg)
 		case EVRPC_TERMINATE:
 			goto error;
 		case EVRPC_PAUSE:
-			evrpc_pause_request(rpc->base, rpc_state,
-			    evrpc_request_cb_closure);
+			if (evrpc_pause_request(rpc->base, rpc_state,
+				evrpc_request_cb_closure) == -1)
+				goto error;
 			return;
 		case EVRPC_CONTINUE:
 			break;
@@ -904,10 +905,14 @@ evrpc_reply_done(struct evhttp_request *req, void *arg)
 			 * layer is going to free it.  we need to
 			 * request ownership explicitly
 			 */
+			if (evrpc_pause_request(pool, ctx,
+				evrpc_reply_done_closure) == -1) {
+				/* cannot park it: complete it now, while the
+				 * http layer still owns the request */
+				hook_res = EVRPC_TERMINATE;
+				break;
+			}
 			evhttp_request_own(req);
-
-			evrpc_pause_request(pool, ctx,
-			    evrpc_reply_done_closure);
 			return;
 		default:
 			EVUTIL_ASSERT(hook_res == EVRPC_TERMINATE ||
